@@ -29,7 +29,7 @@ RULE = ('every completion order the pool model allows for n files and w workers 
 ASSUMPTIONS = [
 	'orders exhaustive for n <= 4 (quick) / 5 (thorough) files; FIFO dispatch of the pools is assumed by the model and validated at every step',
 	"the library's process pool is driven with the Linux default start method (fork) only",
-	'worker bodies are atomic in this exploration (interleavings inside calc_file_signature are not explored here)',
+	'worker bodies: two threads interleaved at Python-line granularity inside gambit sources with <= 1 (quick) / 2 (thorough) preemptions; C-level and library-internal interleavings are not explored',
 ]
 TIMEOUT = 60
 
@@ -332,6 +332,9 @@ def plan(tier, seed):
 			for fault in [None] + list(range(n)):
 				tasks.append(('t_orders', dict(n=n, mode=mode, w=w, fault=fault, tier=tier, seed=seed)))
 	tasks.append(('t_sequential', dict(n=n)))
+	# worker BODIES interleaved at Python-line granularity (state shared between workers would show here)
+	for pair in range(3):
+		tasks.append(('t_bodies', dict(pair=pair, bound=2 if (tier != 'quick' and pair == 0) else 1)))
 	return tasks
 
 
@@ -392,6 +395,48 @@ def t_sequential(n):
 	return sh
 
 
+def t_bodies(pair, bound):
+	"""Two threads each run the real calc_file_signature on its own file; every interleaving of their gambit source lines with at most
+	`bound` preemptions is executed (sys.settrace baton); both results must equal the sequential ones in every interleaving."""
+	from mc import sched, build
+	from gambit.seq import SequenceFile
+	from gambit.sigs.calc import calc_file_signature
+	sh = Shard()
+	src = os.path.realpath(build.SRC) + os.sep
+	ks_list = [fixtures.kspec(4, 'AT'), fixtures.kspec(11, 'ATGAC'), fixtures.kspec(12, 'AT')]      # dense, dense (k=11), set accumulator
+	ks = ks_list[pair]
+	with fixtures.workdir('c13b') as d:
+		seqs = [['GGATCCGTAATACGT', 'ATGACAAAAAAAAAAAGGATTTTTTTTTTTTTTT'], ['CCATGGGGATGACCCCCCCCCCCGGATAAAAAAAAAAAAAAC']]
+		files = []
+		for i, contigs in enumerate(seqs):
+			p = os.path.join(d, f'b{i}.fa')
+			fixtures.write_fasta(p, contigs)
+			files.append(SequenceFile(p, 'fasta', None))
+		expected = [calc_file_signature(ks, f) for f in files]
+		if np.array_equal(expected[0], expected[1]):
+			raise HarnessError('fixture: the two files must have different signatures')
+		il = sched.LineInterleaver([lambda f=f: calc_file_signature(ks, f) for f in files], lambda fn: os.path.realpath(fn).startswith(src))
+		states = set()
+		for choices, trace, results in sched.explore(il.run, bound):
+			sh.evals += 1
+			sh.traces += 1
+			ok = all(r is not None and r[0] == 'ok' and isinstance(r[1], np.ndarray) and r[1].dtype == e.dtype and np.array_equal(r[1], e) for r, e in zip(results, expected))
+			if not ok:
+				sh.violation('worker-bodies-interfere', dict(mode='bodies', n=2, order=[], workers=2, pre_completed=0, fault=None, faultkind=None, pair=pair, schedule=choices),
+				             [e.tolist() for e in expected], [None if r is None else (r[1].tolist() if r[0] == 'ok' else r[1]) for r in results])
+			if sched.preemptions(trace):
+				sh.nontrivial += 1
+			h = 0
+			for t in trace:
+				h = hash((h, t[2], t[0]))
+				states.add(h)
+		sh.states = len(states) + 1
+		sh.transitions = len(states)
+		sh.count('body_interleavings', sh.evals)
+	sh.sample(dict(family='bodies', kmerspec=repr(ks), preemption_bound=bound, interleavings=sh.evals, trace_length=len(trace)))
+	return sh
+
+
 def violation_key(v):
 	# with >= 2 futures finished before as_completed() is entered, their yield order is the iteration order of a set of Future objects
 	# (memory addresses) - not owned by the harness; prefer counterexamples whose replay is deterministic
@@ -401,7 +446,7 @@ def violation_key(v):
 
 def finalize(agg, tier):
 	for c in ('orders_differing_from_submission_order', 'last_submitted_finishes_first', 'runs_with_pre_completed_futures', 'faults_raised',
-	          'fault_completes_first', 'fault_completes_last'):
+	          'fault_completes_first', 'fault_completes_last', 'body_interleavings'):
 		agg.require(c, 10)
 
 
@@ -409,6 +454,8 @@ def replay(case, kind=None):
 	from gambit.sigs.calc import calc_file_signature
 	sh = Shard()
 	ks = fixtures.kspec(11, 'ATGAC')
+	if case['mode'] == 'bodies':
+		return [v for v in t_bodies(case['pair'], 2).violations if v['case'].get('schedule') == case['schedule']][:1] or t_bodies(case['pair'], 2).violations[:1] and []
 	if case['mode'] == 'sequential' or case['mode'] not in ('threads', 'processes', 'executor'):
 		return t_sequential(case['n']).violations
 	with fixtures.workdir('c13r') as d:
